@@ -346,9 +346,19 @@ func (eval *Evaluator) dft(ctIn *rlwe.Ciphertext, matrices []ltcommon.LinearTran
 
 	inputLogSlots := ctIn.LogDimensions
 
-	// Sequentially multiplies w with the provided dft matrices.
-	if err = eval.LTEvaluator.EvaluateSequential(ctIn, matrices, opOut); err != nil {
-		return
+	// Sequentially multiplies w with the provided dft matrices. Matrices sharing a prime have
+	// a scale of prime^(1/k), hence the rescaling only happens once the scale allows it.
+	scale, in := ctIn.Scale, ctIn
+	for i := range matrices {
+		if err = eval.LTEvaluator.EvaluateMany(in, matrices[i:i+1], []*rlwe.Ciphertext{opOut}); err != nil {
+			return
+		}
+
+		if err = eval.RescaleTo(opOut, scale, opOut); err != nil {
+			return
+		}
+
+		in = opOut
 	}
 
 	// Encoding matrices are a special case of `fractal` linear transform
